@@ -54,6 +54,27 @@ def analyse(t, hole: Q) -> Q | None:
     h = t[0]
     if h == "k":
         return Q("const")
+    if h == "cases":
+        qs = []
+        for conds, term in t[1]:
+            if isinstance(term, list) and term and term[0] == "raise":
+                continue
+            q = analyse(term, hole)
+            if q is None:
+                return None
+            qs.append(q)
+        if not qs:
+            return None
+        first = qs[0]
+        if any((q.carrier, q.unit) != (first.carrier, first.unit) for q in qs):
+            return None
+        merged = first.then("(by cases)")
+        merged.via_float = any(q.via_float for q in qs)
+        merged.exact = all(q.exact for q in qs)
+        truncs = {q.trunc for q in qs}
+        merged.trunc = "truncate" if "truncate" in truncs else first.trunc
+        merged.ops = [o for q in qs for o in q.ops]
+        return merged
     if h in ("div", "mul", "floordiv", "add", "sub", "mod") and len(t) == 3:
         a, b = analyse(t[1], hole), analyse(t[2], hole)
         ca, cb = k_const(t[1]), k_const(t[2])
@@ -187,6 +208,8 @@ def find_nodes(t, head):
 def show(t) -> str:
     if is_hole(t):
         return "X"
+    if isinstance(t, list) and len(t) == 2 and t[0] == "cases":
+        return "cases(" + " | ".join(show(term) for _, term in t[1]) + ")"
     if isinstance(t, list) and t and not isinstance(t[0], str):
         return "(" + ", ".join(show(x) for x in t) + ")"
     if isinstance(t, list) and t:
